@@ -186,6 +186,48 @@ def prefixes(cases, maxlen=400, tag="pre"):
     return out
 
 
+BAD_BYTES = (0x00, 0x01, 0x21, 0x58, 0x20, 0x7f, 0xff, 0x0d, 0x0a, 0x3a, 0x09)
+
+
+def cut_after_bad(cases, maxpos=120, tag="bad"):
+    """for every api case and position i: the buffer cut right after a replaced byte, b[:i] + [x], for the
+       byte values of BAD_BYTES -- the states in which a wrong byte has just arrived (C11)"""
+    out = []
+    for c in cases:
+        if c[0] != "A":
+            continue
+        b = c[6]
+        for i in range(min(len(b), maxpos)):
+            for x in BAD_BYTES:
+                if b[i] != x:
+                    out.append(("A", "%s!%d.%02x" % (c[1], i, x), c[2], c[3], c[4], c[5], b[:i] + bytes([x])))
+    return out
+
+
+BAD_BYTES2 = BAD_BYTES + (0x2f, 0x3b, 0x3f, 0x40, 0x5b, 0x60, 0x7b, 0x80)
+
+
+def mutated_windows(cases, maxpos=48, win=4, values=BAD_BYTES2):
+    """(mutated bases, their prefixes): every api case with one byte replaced at position i, and of that buffer
+       only the prefixes ending 1..win bytes after the replaced byte plus the whole buffer (C02: is the verdict
+       taken at the replaced byte the final one?)"""
+    bases, pre = [], []
+    for c in cases:
+        if c[0] != "A":
+            continue
+        b = c[6]
+        for i in range(min(len(b), maxpos)):
+            for x in values:
+                if b[i] == x:
+                    continue
+                w = b[:i] + bytes([x]) + b[i + 1:]
+                nid = "%s~%d.%02x" % (c[1], i, x)
+                bases.append(("A", nid, c[2], c[3], c[4], c[5], w))
+                for k in sorted(set(list(range(i + 1, min(len(w), i + 1 + win) + 1)) + [len(w)])):
+                    pre.append(("A", "%s#%d" % (nid, k), c[2], c[3], c[4], c[5], w[:k]))
+    return bases, pre
+
+
 def adversarial(seed, sizes, tag="adv"):
     """long runs of folds, ignored lines, whitespace, HTAB near-misses, obs-text, one huge header"""
     out = []
